@@ -15,6 +15,7 @@ func init() {
 }
 
 func runC02(c *Ctx) {
+	borrow(c, "O9", "C17", "O7", "GetGpuGroups", "the per-group memory counters of a snapshot are rebuilt from the groups GetGpuGroups reports for each bound pod: a sharer whose groups are not found leaves its devices looking free")
 	borrow(c, "O7", "C01", "O2", "IsTaskAllocatable accepting path", "the bind-versus-pipeline decision for a new GPU group relies on IsTaskAllocatable: a gpu-memory request must not pass it without an idle GPU")
 	p, fx := c.P, c.Fx
 	// O1: add/remove shared resources per group: inverse per status arm (arm-level: guards on other counters may differ)
